@@ -9,6 +9,7 @@ import (
 	"errors"
 	"fmt"
 	"reflect"
+	"runtime"
 	"sort"
 	"strings"
 	"sync"
@@ -36,13 +37,14 @@ type c19Case struct {
 }
 
 var (
-	mu        sync.Mutex
-	wrapCalls int
-	hookCalls int
-	hookNames [][2]string
-	hookIDs   []string
-	unknown   int
-	active    bool
+	mu           sync.Mutex
+	wrapCalls    int
+	hookCalls    int
+	hookNames    [][2]string
+	hookIDs      []string
+	unknown      int
+	builtinCalls int
+	active       bool
 )
 
 func logWrap(name string) int {
@@ -92,6 +94,10 @@ func hook(vm, env uintptr, ev string, a int, b uintptr) {
 	if n, ok := byPtr[b]; ok {
 		hookNames = append(hookNames, n)
 		hookIDs = append(hookIDs, idByPtr[b])
+	} else if f := runtime.FuncForPC(b); f != nil && strings.HasPrefix(f.Name(), "github.com/open2b/scriggo/internal/") {
+		// the interpreter's own implementation of a builtin (print, println, close ... started with defer/go):
+		// not host functionality of the embedder; its output goes through the configured print hook
+		builtinCalls++
 	} else {
 		unknown++
 	}
@@ -160,6 +166,16 @@ func tmplSource(c c19Case) string {
 		}
 	}
 	for k, s := range c.Prog {
+		if s.Pkg == "#" { // a builtin has no value to show
+			switch s.Kind {
+			case "direct":
+				fmt.Fprintf(&b, "{%%%% %s %%%%}", callExpr(s))
+				continue
+			case "closure":
+				fmt.Fprintf(&b, "{%%%% func() { %s }() %%%%}", callExpr(s))
+				continue
+			}
+		}
 		switch s.Kind {
 		case "direct":
 			fmt.Fprintf(&b, "{{ %s }}", callExpr(s))
@@ -187,7 +203,7 @@ func names(d native.Declarations) []string {
 
 func buildAndRun(c c19Case, form string, step int, pk native.Packages, globals, p1decls, p2decls native.Declarations) map[string]any {
 	mu.Lock()
-	wrapCalls, hookCalls, hookNames, hookIDs, unknown, active = 0, 0, nil, nil, 0, true
+	wrapCalls, hookCalls, hookNames, hookIDs, unknown, builtinCalls, active = 0, 0, nil, nil, 0, 0, true
 	mu.Unlock()
 	build := "ok"
 	src := ""
@@ -231,7 +247,7 @@ func buildAndRun(c c19Case, form string, step int, pk native.Packages, globals, 
 	}()
 	for k := 0; k < 200; k++ { // a `go` call of a host function completes asynchronously
 		mu.Lock()
-		done := wrapCalls >= hookCalls
+		done := wrapCalls+builtinCalls >= hookCalls
 		mu.Unlock()
 		if done {
 			break
@@ -271,7 +287,7 @@ func buildAndRun(c c19Case, form string, step int, pk native.Packages, globals, 
 	sort.Strings(supplied)
 	return map[string]any{"id": c.ID, "form": form, "step": step, "importer": c.Importer, "globals": c.Globals, "allowgo": c.AllowGo, "hist": c.Hist,
 		"prog": c.Prog, "build": build, "calls": calls, "callids": ids, "supplied": supplied, "decl": decl,
-		"unknown": unknown, "wrapcalls": wrapCalls, "hookcalls": hookCalls, "src": src}
+		"unknown": unknown, "wrapcalls": wrapCalls + builtinCalls, "hookcalls": hookCalls, "builtincalls": builtinCalls, "src": src}
 }
 
 func main() {
